@@ -7,8 +7,8 @@ import (
 
 	"github.com/ethereum/go-ethereum/ethdb"
 	"github.com/ethereum/go-ethereum/ethdb/memorydb"
-	tk "verif/harness/triekit"
 	tl "verif/harness/tracelib"
+	tk "verif/harness/triekit"
 )
 
 type entry struct {
